@@ -395,6 +395,20 @@ func getA(os []out, i int) int {
 // ---- C12 generator --------------------------------------------------------------
 
 func genSettings(r *vhlib.Rand) (st, uint64) {
+	if r.Chance(7, 10) { // plausible host configuration: every bound can be met
+		h := pickU64(r, 1, 1000, 500000, 1<<32)
+		cp := vhlib.Pick(r, bi(0), bi(1), bi(200), pow2(70))
+		s := st{
+			WS: pickU64(r, 1, 144, 144), MD: pickU64(r, 1000, 25920, 25920, 1<<32), Addr: 2,
+			CP:  cur(cp),
+			MC:  cur(add(cp, vhlib.Pick(r, bi(0), bi(1), bi(1000), pow2(80), pow2(100), amount(r)))),
+			SP:  cur(vhlib.Pick(r, bi(0), bi(1), bi(2), bi(34722))),
+			Col: cur(vhlib.Pick(r, bi(0), bi(1), bi(3), bi(69444))),
+			RC:  cur(vhlib.Pick(r, bi(0), bi(1), bi(100), pow2(70))),
+			B:   cur(vhlib.Pick(r, bi(0), bi(1), bi(10), pow2(70))),
+		}
+		return s, h
+	}
 	h := pickU64(r, 0, 1, 1000, 500000, 1<<32, math.MaxUint64-1000)
 	s := st{
 		WS:   pickU64(r, 0, 1, 144, 144, 144, 1000, math.MaxUint64),
@@ -416,7 +430,7 @@ func genSettings(r *vhlib.Rand) (st, uint64) {
 // windowFor returns a window start at one of the bounds of the settings (±1) or inside them.
 func windowFor(r *vhlib.Rand, h uint64, s st) (ws, we uint64) {
 	lo, hi := h+s.WS, h+s.MD // wrap-around is part of the input space
-	switch r.Intn(9) {
+	switch r.Intn(16) {
 	case 0:
 		ws = lo - 1
 	case 1, 2:
@@ -425,9 +439,9 @@ func windowFor(r *vhlib.Rand, h uint64, s st) (ws, we uint64) {
 		ws = lo + 1
 	case 4:
 		ws = hi - 1
-	case 5:
+	case 5, 6:
 		ws = hi
-	case 6:
+	case 7:
 		ws = hi + 1
 	default:
 		ws = lo
@@ -436,7 +450,7 @@ func windowFor(r *vhlib.Rand, h uint64, s st) (ws, we uint64) {
 		}
 	}
 	we = ws + s.WS
-	switch r.Intn(6) {
+	switch r.Intn(10) {
 	case 0:
 		we--
 	case 1:
@@ -567,7 +581,7 @@ func genC12(tr *vhlib.Trace, r *vhlib.Rand, rpc bool) {
 	if r.Chance(1, 10) {
 		rk = 1
 	}
-	rh := pickU64(r, math.MaxUint64, math.MaxUint64, 1<<40, h+s.WS+10, h+s.WS, h+1, h)
+	rh := pickU64(r, math.MaxUint64, math.MaxUint64, math.MaxUint64, math.MaxUint64, math.MaxUint64, 1<<40, 1<<40, h+s.WS+10, h+s.WS, h+1, h)
 	kind := r.Intn(100)
 	switch {
 	case kind < 34: // formation
